@@ -122,32 +122,59 @@ Qed.
 Lemma mapM_err_head {A B} (f : A -> res B) l : 0 < length l -> (forall a, In a l -> f a = Err) -> mapM f l = Err.
 Proof. destruct l; cbn; [lia|]. intros _ H. rewrite H by (left; auto). reflexivity. Qed.
 
-Lemma k_first_bk d x : wf x -> lead_pos d (ash x) -> k_first d x = run_bk bk_first d x.
+Lemma existsb_zero_prod l : existsb (Nat.eqb 0) l = true -> prodn l = 0.
 Proof.
-  intros W L. apply lead_pos_dmin in L. unfold k_first.
+  induction l as [|a l IH]; cbn [existsb]; [discriminate|]. intros H. rewrite prodn_cons.
+  destruct a; [reflexivity|]. cbn in H. rewrite (IH H). lia.
+Qed.
+Lemma existsb_zero_pos l : existsb (Nat.eqb 0) l = false -> Forall (fun n => 0 < n) l.
+Proof.
+  induction l as [|a l IH]; cbn [existsb]; intros H; constructor.
+  - destruct a; [discriminate|lia].
+  - apply IH. destruct a; [discriminate|exact H].
+Qed.
+Lemma wf_no_cells_nil d x : wf x -> existsb (Nat.eqb 0) (firstn d (ash x)) = true -> adata x = [] /\ blocks d x = [].
+Proof.
+  intros W H. apply existsb_zero_prod in H. split.
+  - pose proof (wf_blocks_len d x W) as L. rewrite H in L. destruct (adata x); [reflexivity|discriminate].
+  - unfold blocks. rewrite H. reflexivity.
+Qed.
+
+(** the current first/last kernels are blockwise on EVERY well-formed array *)
+Lemma k_first_bk d x : wf x -> k_first false d x = run_bk bk_first d x.
+Proof.
+  intros W. unfold k_first.
   destruct (dmin d x) as [|dm] eqn:Ed.
   - change (p_first None x) with (sem FFirst x). rewrite <- first_bk0; auto. unfold run_bk. rewrite Ed. unfold dmin. rewrite Nat.min_0_l. reflexivity.
   - unfold run_bk. rewrite Ed. unfold bk_first; cbn [bk_data bk_ty bk_shape].
     pose proof (blocks_len (S dm) x W) as F. rewrite Forall_forall in F.
-    destruct (skipn (S dm) (ash x)) as [|[|[|n]] rest] eqn:E.
+    destruct (skipn (S dm) (ash x)) as [|n rest] eqn:E.
     + rewrite (mapM_ok_map (fun b => b)), map_id. cbn [bind tl]. rewrite blocks_concat, app_nil_r, skipn_nil_firstn; auto. destruct x; reflexivity.
-    + rewrite mapM_err_head; auto. rewrite blocks_count. apply lead_pos_prod; auto.
-    + rewrite (mapM_ok_map (firstn (prodn rest))). cbn [bind tl]. rewrite map_id_in, blocks_concat; auto.
-      intros a Ha. specialize (F a Ha). rewrite prodn_cons in F. apply firstn_all2. lia.
-    + rewrite (mapM_ok_map (firstn (prodn rest))). reflexivity.
+    + unfold no_cells. cbn [negb andb]. destruct (existsb (Nat.eqb 0) (firstn (S dm) (ash x))) eqn:Z.
+      * destruct (wf_no_cells_nil (S dm) x W Z) as [D B]. rewrite B, D. reflexivity.
+      * apply existsb_zero_pos in Z.
+        destruct n as [|[|n]].
+        -- rewrite mapM_err_head; auto. rewrite blocks_count. apply lead_pos_prod; auto.
+        -- rewrite (mapM_ok_map (firstn (prodn rest))). cbn [bind tl]. rewrite map_id_in, blocks_concat; auto.
+           intros a Ha. specialize (F a Ha). rewrite prodn_cons in F. apply firstn_all2. lia.
+        -- rewrite (mapM_ok_map (firstn (prodn rest))). reflexivity.
 Qed.
 
-Lemma k_last_bk d x : wf x -> lead_pos d (ash x) -> k_last d x = run_bk bk_last d x.
+Lemma k_last_bk d x : wf x -> k_last false d x = run_bk bk_last d x.
 Proof.
-  intros W L. apply lead_pos_dmin in L. unfold k_last.
+  intros W. unfold k_last.
   destruct (dmin d x) as [|dm] eqn:Ed.
   - change (p_last None x) with (sem FLast x). rewrite <- last_bk0; auto. unfold run_bk. rewrite Ed. unfold dmin. rewrite Nat.min_0_l. reflexivity.
   - unfold run_bk. rewrite Ed. unfold bk_last; cbn [bk_data bk_ty bk_shape].
-    destruct (skipn (S dm) (ash x)) as [|[|[|n]] rest] eqn:E.
+    destruct (skipn (S dm) (ash x)) as [|n rest] eqn:E.
     + rewrite (mapM_ok_map (fun b => b)), map_id. cbn [bind tl]. rewrite blocks_concat, app_nil_r, skipn_nil_firstn; auto. destruct x; reflexivity.
-    + rewrite mapM_err_head; auto. rewrite blocks_count. apply lead_pos_prod; auto.
-    + rewrite (mapM_ok_map (skipn ((1 - 1) * prodn rest))). cbn [bind tl Nat.sub Nat.mul skipn]. rewrite map_id, blocks_concat; auto.
-    + rewrite (mapM_ok_map (skipn ((S (S n) - 1) * prodn rest))). reflexivity.
+    + unfold no_cells. cbn [negb andb]. destruct (existsb (Nat.eqb 0) (firstn (S dm) (ash x))) eqn:Z.
+      * destruct (wf_no_cells_nil (S dm) x W Z) as [D B]. rewrite B, D. reflexivity.
+      * apply existsb_zero_pos in Z.
+        destruct n as [|[|n]].
+        -- rewrite mapM_err_head; auto. rewrite blocks_count. apply lead_pos_prod; auto.
+        -- rewrite (mapM_ok_map (skipn ((1 - 1) * prodn rest))). cbn [bind tl Nat.sub Nat.mul skipn]. rewrite map_id, blocks_concat; auto.
+        -- rewrite (mapM_ok_map (skipn ((S (S n) - 1) * prodn rest))). reflexivity.
 Qed.
 
 (* ------------------------------------------------------------------ box (repaired slicing) *)
